@@ -88,6 +88,16 @@ class Ctx:
                     return False
                 # callers may pass a shortened case text: only a text that reproduces the model's answer is the case itself
                 return again == lean and r != lean
+        if case.startswith("reenc "):
+            # decode -> re-encode -> decode of a program whose FIRST decode is in that territory: what is re-encoded is then one of
+            # several values; the re-encoding itself is compared wherever the first decode is not alias-sensitive
+            f = case.split("   ")[0].split(" ")
+            if len(f) == 3:
+                try:
+                    again, a, r = C.run_lean([case.split("   ")[0], f"dec {f[1]} - {f[2]}", f"decref {f[1]} - {f[2]}"])
+                except Exception:
+                    return False
+                return again == lean and a != r
         return False
 
 
